@@ -285,7 +285,11 @@ def run_leg(binary, driver, n, seed, tier, shard=250, corpus=None, single_input=
         if rc != 0:
             lr.errors.append("driver %s exited %d: %s" % (driver, rc, out[-1500:]))
             # the process died: which input was it executing?  Re-run each candidate alone.
-            if single_input is None:
+            mh = re.search(r"^HANG: driver \S+: the implementation did not return within \S+ on input: (.*)$", out, flags=re.M)
+            if rc == 3 and mh:
+                # the driver's own per-case watchdog named the input: no need to wait for the hang a second time
+                lr.crashes.append((mh.group(1), rc, out[-3000:]))
+            elif single_input is None:
                 try:
                     cands = [l for l in open(os.path.join(work, driver + ".inflight")).read().split("\n") if l.strip()]
                 except OSError:
